@@ -164,15 +164,15 @@ static std::string run_engine(const char *eng, int variant, int cfg, const Scrip
           // the model's view of the pass: who is enabled and ready now; nothing but the script's actor can change that during the pass
           // a descriptor is (possibly) SERVED in this pass if it has an enabled subscriber and is ready for a subscribed condition or hung up / in error
           // (epoll reports HUP/ERR whatever the interest is)
-          std::vector<Call> exp; bool actor_runs = false; int nd = 0; bool dseen[ND] = {false, false, false};
+          std::vector<Call> exp; int nd = 0; bool dseen[ND] = {false, false, false};
           for (int e = 0; e <= NE; e++) if (w.alive[e] && w.en[e]) { short hit = (short)(w.mask[e] & ready_bits(w.snap[w.d[e]]));
-            if (hit) { exp.push_back(Call{e, hit}); if (e == sc.e) actor_runs = true; }
+            if (hit) exp.push_back(Call{e, hit});
             if ((hit || (w.snap[w.d[e]] & (POLLHUP | POLLERR))) && !dseen[w.d[e]]) { dseen[w.d[e]] = true; nd++; } }
           w.passes.emplace_back();
           w.loop->runNext([] {}); w.loop->runLoop(Loop::Mode::kOnce);
           // nothing but the script's actor changes anything during a pass: if the actor was not called (or acts only on itself) the model's set is exact
           bool actor_called = false; for (auto &c : w.passes.back()) if (c.e == sc.e) actor_called = true;
-          bool ex = self_only(sc.act) || !actor_called; (void)actor_runs;
+          bool ex = self_only(sc.act) || !actor_called;
           w.expected.push_back(exp); w.exact.push_back(ex); w.indep.push_back(ex || nd <= 1);
           if (w.viol.empty() && ex) {      // callbacks never drain, so every enabled subscriber of a ready descriptor is due exactly once, with exactly its ready conditions
             auto key = [](std::vector<Call> v) { std::vector<int> k; for (auto &c : v) k.push_back(c.e * 8 + c.m); std::sort(k.begin(), k.end()); return k; };
